@@ -29,15 +29,15 @@ import h2.exceptions
 from .. import core, duet, wire, hdrmodel
 
 LEVEL = 'exploration'
-RULE = ('random duet programs of 20-160 steps: requests, informational / final responses, DATA with and without padding, trailers, END_STREAM, resets, '
+RULE = ('random duet programs of 20-160 steps on plain and h2c-upgraded connections, receive-side header_encoding / inbound normalisation varied per endpoint: requests, informational / final responses, DATA with and without padding, trailers, END_STREAM, resets, '
         'pushes and pushed responses, pings, PRIORITY, SETTINGS changes (up to three frames in flight per endpoint) racing traffic, manual and automatic '
         'window updates, deliberately failing calls, GOAWAY; delivery of random-length prefixes of either pipe between steps; non-trivial = at '
         'least 10 messages arrived and were compared, with at least one mid-frame chunk boundary; distinct = hash of the op list')
 MINIMA = {'messages_arrived_and_compared': 100000, 'receive_calls_compared': 60000, 'mid_frame_deliveries': 10000, 'failing_calls_checked_silent': 5000,
           'msg:headers:request': 5000, 'msg:headers:final': 3000, 'msg:headers:informational': 300, 'msg:headers:trailers': 500, 'msg:data': 8000,
           'msg:rst': 1000, 'msg:push': 500, 'msg:ping': 1000, 'msg:priority': 500, 'msg:settings': 1000, 'msg:window_update': 2000,
-          'msg:goaway': 100, 'auto:settings_ack': 1000, 'auto:ping_ack': 1000, 'auto:window_update': 300,
-          'arrived_on_locally_reset_stream_expect_silence': 300, 'settings_in_flight_while_traffic_arrives': 1000, 'settings_frames_overlapping_in_flight': 500}
+          'msg:goaway': 100, 'msg:altsvc': 300, 'auto:settings_ack': 1000, 'auto:ping_ack': 1000, 'auto:window_update': 300,
+          'arrived_on_locally_reset_stream_expect_silence': 300, 'upgraded_starts': 1000, 'settings_in_flight_while_traffic_arrives': 1000, 'settings_frames_overlapping_in_flight': 500}
 EXHAUSTIVE = {}
 
 TOKENS = [b'x-a', b'X-Mixed-Case', b'accept', b'user-agent', b'cookie', b'cookie', b'content-type', b'etag', b'authorization', b'x-long-header-name']
@@ -68,8 +68,9 @@ def make_headers(rng, kind, tag):
 
 
 def delivered_form(headers):
-    nf = [(n, v) for n, v, _ in hdrmodel.normal_form(headers)]
-    return hdrmodel.inbound_delivery(nf, True)
+    """What goes on the wire: the documented outbound normal form.  What the receiver hands over additionally depends on its own
+    normalize_inbound_headers setting (cookie crumbs joined or not): see arrive()."""
+    return [(n, v) for n, v, _ in hdrmodel.normal_form(headers)]
 
 
 class Side(object):
@@ -82,6 +83,7 @@ class Side(object):
         self.next_id = 1 if client else 2
         self.unacked_data = {}          # sid -> flow-controlled bytes received and not yet acknowledged
         self.poisoned = set()           # streams closed inside the library by a refused local call (known finding)
+        self.normalize_inbound = True
 
 
 def new_stream(by, state):
@@ -111,6 +113,10 @@ def ev(name, **kw):
 def arrive(Y, m, rep):
     """Expected events at Y for message m, updating Y's stream view."""
     k = m['k']
+    if 'headers' in m and not m.get('_delivered'):
+        m = dict(m)
+        m['headers'] = hdrmodel.inbound_delivery(m['headers'], Y.normalize_inbound)
+        m['_delivered'] = True
     if k == 'headers':
         sid = m['sid']
         s = Y.st.get(sid)
@@ -207,6 +213,8 @@ def arrive(Y, m, rep):
             if s['state'] == 'closed':
                 return []
         return [ev('WindowUpdated', stream_id=sid, delta=m['inc'])]
+    if k == 'altsvc':
+        return [ev('AlternativeServiceAvailable', origin=m['origin'], field_value=m['field'])]
     if k == 'goaway':
         Y.retired = True
         return [ev('ConnectionTerminated', error_code=m['code'], last_stream_id=m['last'], additional_data=m['data'])]
@@ -236,6 +244,8 @@ def actual_form(e):
         d = {'changed_keys': sorted(int(k) for k in e.changed_settings)}
     elif name == 'WindowUpdated':
         d = {'stream_id': e.stream_id, 'delta': e.delta}
+    elif name == 'AlternativeServiceAvailable':
+        d = {'origin': e.origin, 'field_value': e.field_value}
     elif name == 'ConnectionTerminated':
         d = {'error_code': int(e.error_code), 'last_stream_id': e.last_stream_id, 'additional_data': e.additional_data or b''}
     else:
@@ -244,12 +254,36 @@ def actual_form(e):
 
 
 def run_case(idx, rng, tier, rep):
-    d = duet.Duet()
-    d.handshake()
+    # receive-side configuration varies per endpoint: decoded (str) or raw (bytes) header text, cookie crumbs joined or not
+    cfgs = {}
+    for name in ('c', 's'):
+        cfgs[name] = {'header_encoding': rng.choice([None, None, 'utf-8']), 'normalize_inbound_headers': rng.random() < 0.8}
+    d = duet.Duet(ccfg=cfgs['c'], scfg=cfgs['s'])
+    upgraded = rng.random() < 0.12
+    if upgraded:
+        # h2c upgrade: stream 1 exists from the start, half-closed (local) at the client and half-closed (remote) at the server
+        r = d.call('c', 'initiate_upgrade_connection')
+        if r.exc is None:
+            r = d.call('s', 'initiate_upgrade_connection', r.value)
+        if r.exc is not None:
+            rep.violation('C01:upgrade-raises:' + core.exc_key(r.exc), repr(r.exc))
+            return
+        d.settle()
+        rep.count('upgraded_starts')
+    else:
+        d.handshake()
     if d.errors:
         rep.violation('C01:handshake-raises:' + core.exc_key(d.errors[0][1]), repr(d.errors[0][1]))
         return
     sides = {'c': Side('c', True), 's': Side('s', False)}
+    for name in ('c', 's'):
+        sides[name].normalize_inbound = cfgs[name]['normalize_inbound_headers']
+    if upgraded:
+        cs = sides['c'].st[1] = new_stream('E', 'hcl')
+        cs['sent'] = 'done'
+        ss = sides['s'].st[1] = new_stream('P', 'hcr')
+        ss['recv'] = 'done'
+        sides['c'].next_id = 3
     queue = {'c2s': [], 's2c': []}          # messages in flight, in byte order: dicts with 'end'
     ops = []
     st = {'alive': True, 'compared': 0, 'midframe': 0, 'tag': 0}
@@ -646,6 +680,20 @@ def run_case(idx, rng, tier, rep):
             enqueue_auto(x, r.frames, 'acknowledge_received_data')
         return True
 
+    def op_altsvc(x):
+        X = sides[x]
+        if X.client:
+            return False
+        origin = rng.choice([b'example.com', b'a.test', b'other.example:8443'])
+        field = rng.choice([b'h2=":443"', b'h2="alt.example:443"; ma=3600', b'clear'])
+        ops.append((x, 'advertise_alternative_service', origin))
+        r = call(x, 'advertise_alternative_service', field, origin=origin)
+        if r.exc is not None:
+            unexpected_raise(x, r, 'advertise_alternative_service')
+            return True
+        enqueue(x, {'k': 'altsvc', 'origin': origin, 'field': field})
+        return True
+
     def op_goaway(x):
         X = sides[x]
         code = rng.choice([0, 1, 2, 11])
@@ -748,7 +796,7 @@ def run_case(idx, rng, tier, rep):
         return True
 
     OPS = [(op_request, 10), (op_respond, 10), (op_data, 14), (op_end, 6), (op_reset, 3), (op_push, 3), (op_ping, 3), (op_priority, 2),
-           (op_settings, 3), (op_window, 3), (op_ack, 6), (op_failing, 7), (op_goaway, 0.25)]
+           (op_settings, 3), (op_window, 3), (op_altsvc, 1), (op_ack, 6), (op_failing, 7), (op_goaway, 0.25)]
     total_w = sum(w for _, w in OPS)
 
     def pick_op():
